@@ -422,3 +422,31 @@ Proof.
 Qed.
 Theorem bits_lsb_first ws vs : vals_ok (combine ws vs) -> bits_value ws vs = weighted 0 ws vs.
 Proof. intros Hv. unfold bits_value. rewrite pack_at_weighted by (try assumption; cbn; lia). lia. Qed.
+
+(* strictness makes decoding injective: two byte strings that decode (completely) to the
+   same field values are the same byte string *)
+Lemma decode_injective m d d' e : wf_layout m = true -> has_fields m = true ->
+  bytes_ok d = true -> bytes_ok d' = true ->
+  decode m d = Ok (e, false) -> decode m d' = Ok (e, false) -> d = d'.
+Proof.
+  intros W F B B' H H'.
+  pose proof (decode_strict m d e W F B H) as E.
+  pose proof (decode_strict m d' e W F B' H') as E'.
+  congruence.
+Qed.
+
+(* in particular no accepted input stays accepted with the same meaning when bytes are
+   appended to it or dropped from its end *)
+Lemma decode_no_slack m d x e : wf_layout m = true -> has_fields m = true ->
+  bytes_ok d = true -> bytes_ok x = true -> x <> [] ->
+  decode m d = Ok (e, false) -> decode m (d ++ x) <> Ok (e, false).
+Proof.
+  intros W F B Bx Hx H H'.
+  assert (Bdx : bytes_ok (d ++ x) = true) by (rewrite bytes_ok_app, B, Bx; reflexivity).
+  pose proof (decode_injective m d (d ++ x) e W F B Bdx H H') as E.
+  apply (f_equal (@length N)) in E. rewrite app_length in E.
+  destruct x; [congruence | cbn in E; apply (f_equal (fun n => n - length d)%nat) in E].
+  rewrite PeanoNat.Nat.sub_diag in E.
+  replace (length d + S (length x) - length d)%nat with (S (length x)) in E; [discriminate|].
+  rewrite PeanoNat.Nat.add_comm. symmetry. apply PeanoNat.Nat.add_sub.
+Qed.
